@@ -337,3 +337,32 @@ fn replay_assumed_contracts_consensus() {
     for f in failures.iter().take(4) { println!("FAILING-INPUT property=ASSUMED {}", f); }
     assert!(failures.is_empty(), "an assumed contract does not hold on the real code: {:?}", failures);
 }
+
+/// C09 mirror (real `RRLeaderElector` + `Committee::size`): for every committee - also with members of stake 0 and unequal stakes - every node
+/// derives the same leader from the committee alone, and every window of n consecutive rounds has n distinct leaders covering ALL authorities.
+#[test]
+fn replay_c09_leader_rotation() {
+    use crate::leader::RRLeaderElector;
+    let mut failures = Vec::new();
+    for stakes in [vec![1u32, 1, 1, 1], vec![1, 2, 3], vec![5], vec![0, 1, 1, 1, 1, 2], vec![0, 0, 3, 1], vec![1, 0, 1, 1, 1, 1, 0]] {
+        let (c, ks) = committee_with_stakes(&stakes);
+        let n = stakes.len();
+        if c.size() != n { failures.push(format!("Committee::size() = {} for a committee of {} authorities (stakes {:?})", c.size(), n, stakes)); }
+        let a = RRLeaderElector::new(c.clone());
+        let b = RRLeaderElector::new(c.clone());
+        for start in 0..(3 * n as u64 + 2) {
+            let mut window: Vec<PublicKey> = (start..start + n as u64).map(|r| a.get_leader(r)).collect();
+            if (start..start + n as u64).any(|r| a.get_leader(r) != b.get_leader(r)) { failures.push(format!("two electors over the same committee disagree near round {}", start)); }
+            window.sort();
+            window.dedup();
+            let mut all: Vec<PublicKey> = ks.iter().map(|(k, _)| *k).collect();
+            all.sort();
+            if window != all {
+                failures.push(format!("rounds {}..{} have {} distinct leaders, the committee has {} authorities (stakes {:?})", start, start + n as u64, window.len(), n, stakes));
+                break;
+            }
+        }
+    }
+    for f in failures.iter().take(4) { println!("FAILING-INPUT property=C09 {}", f); }
+    assert!(failures.is_empty(), "leader rotation does not hold on the real code: {:?}", failures);
+}
